@@ -532,6 +532,15 @@ namespace hmac_cpp {
         return hkdf_expand_sha256_secure(prk.data(), prk.size(), info.data(), info.size(), L);
     }
 
+    namespace detail {
+        /// \brief Zeroes a temporary key copy when it goes out of scope (also on exceptions).
+        struct wipe_vector_guard {
+            std::vector<uint8_t>& v;
+            explicit wipe_vector_guard(std::vector<uint8_t>& ref) : v(ref) {}
+            ~wipe_vector_guard() { secure_zero(v.data(), v.size()); }
+        };
+    }
+
     /// \brief Holds a 32-byte key and 12-byte IV produced by HKDF.
     struct KeyIv {
         std::array<uint8_t,32> key; ///< Derived symmetric key
@@ -575,7 +584,9 @@ namespace hmac_cpp {
     HMAC_CPP_API std::string generate_time_token(const std::vector<uint8_t>& key, int interval_sec = 60, TypeHash hash_type = TypeHash::SHA256);
 
     inline std::string generate_time_token(const secure_buffer<uint8_t>& key, int interval_sec = 60, TypeHash hash_type = TypeHash::SHA256) {
-        return generate_time_token(std::vector<uint8_t>(key.begin(), key.end()), interval_sec, hash_type);
+        std::vector<uint8_t> k(key.begin(), key.end());
+        detail::wipe_vector_guard wipe(k);
+        return generate_time_token(k, interval_sec, hash_type);
     }
 
     /// \brief Generate time token using string key.
@@ -598,7 +609,9 @@ namespace hmac_cpp {
     /// \throws std::runtime_error if the system time cannot be retrieved
     HMAC_CPP_API bool is_token_valid(const std::string &token, const std::vector<uint8_t>& key, int interval_sec = 60, TypeHash hash_type = TypeHash::SHA256);
     inline bool is_token_valid(const std::string &token, const secure_buffer<uint8_t>& key, int interval_sec = 60, TypeHash hash_type = TypeHash::SHA256) {
-        return is_token_valid(token, std::vector<uint8_t>(key.begin(), key.end()), interval_sec, hash_type);
+        std::vector<uint8_t> k(key.begin(), key.end());
+        detail::wipe_vector_guard wipe(k);
+        return is_token_valid(token, k, interval_sec, hash_type);
     }
 
     /// \brief Validate time token using string key.
@@ -623,7 +636,9 @@ namespace hmac_cpp {
     HMAC_CPP_API std::string generate_time_token(const std::vector<uint8_t>& key, const std::string &fingerprint, int interval_sec = 60, TypeHash hash_type = TypeHash::SHA256);
 
     inline std::string generate_time_token(const secure_buffer<uint8_t>& key, const std::string &fingerprint, int interval_sec = 60, TypeHash hash_type = TypeHash::SHA256) {
-        return generate_time_token(std::vector<uint8_t>(key.begin(), key.end()), fingerprint, interval_sec, hash_type);
+        std::vector<uint8_t> k(key.begin(), key.end());
+        detail::wipe_vector_guard wipe(k);
+        return generate_time_token(k, fingerprint, interval_sec, hash_type);
     }
 
     /// \brief Generate fingerprint-bound token using string key.
@@ -649,7 +664,9 @@ namespace hmac_cpp {
     HMAC_CPP_API bool is_token_valid(const std::string &token, const std::vector<uint8_t>& key, const std::string &fingerprint, int interval_sec = 60, TypeHash hash_type = TypeHash::SHA256);
 
     inline bool is_token_valid(const std::string &token, const secure_buffer<uint8_t>& key, const std::string &fingerprint, int interval_sec = 60, TypeHash hash_type = TypeHash::SHA256) {
-        return is_token_valid(token, std::vector<uint8_t>(key.begin(), key.end()), fingerprint, interval_sec, hash_type);
+        std::vector<uint8_t> k(key.begin(), key.end());
+        detail::wipe_vector_guard wipe(k);
+        return is_token_valid(token, k, fingerprint, interval_sec, hash_type);
     }
 
     /// \brief Validate fingerprint-bound token using string key.
